@@ -1,10 +1,16 @@
 (* C02 - expressions follow Yarn's operator table, precedence and short-circuiting.
-   Partial: grouping by precedence/associativity is decided by the ANTLR grammar and the listener's
-   callback stack, which are not verified here; the correspondence family 'exprs' prints every
-   generated tree with minimal / redundant parentheses and all operator spellings and requires the
-   implementation's parser to give the tree back (AST round trip) before comparing values. *)
+   Grouping by precedence/associativity: the expression rule of the generated parser is modelled as
+   the precedence-climbing loop its Go code spells out (Syntax/ExprParser.v), with the levels taken
+   from Generated/ExprTable.v, which tools/gen_exprtable.py extracts from
+   internal/parser/yarnspinner_parser.go on every run; the theorems at the end of this file are
+   re-checked against that table. Modelled, not proved: that AdaptivePredict takes the decision the
+   precedence predicates prescribe, the lexer (operator spellings, literals), and the listener's
+   callback stack - family 'exprparse' compares the model parser with the implementation's on token
+   sequences, family 'exprs' requires the AST round trip before comparing values. *)
 From Coq Require Import List ZArith Bool.
 From YS Require Import Base.Sexp Num.F64 Yarn.Ast Yarn.Value Yarn.Eval Proofs.EvalProofs.
+From YS Require Import Generated.ExprTable Syntax.ExprParser Proofs.ExprParserProofs.
+From Coq Require String.
 Import ListNotations.
 
 Theorem C02_binary_operation_is_the_table : forall v o a b e,
@@ -61,3 +67,79 @@ Example C02_examples : forall v e,
   eval v (EBin OAnd (EVal (VBool false)) (ECall (STR "fail") [])) e = (Val (VBool false), e) /\
   eval v (EBin OAdd (EVal (VNum (of_Z 1))) (EVal (VStr (STR "x")))) e = (Fail, e).
 Proof. intros. repeat split; reflexivity. Qed.
+
+(* ---------- grouping: precedence, associativity, parentheses ---------- *)
+Notation YPrints := (Prints level right_prec neg_operand_prec not_operand_prec).
+
+(* the table extracted from the Go source is the one the property states *)
+Theorem C02_precedence_table :
+  level OAnd = level OOr /\ level OOr = level OXor /\
+  level OXor < level OEq /\ level OEq = level ONe /\
+  level ONe < level OLe /\ level OLe = level OGe /\ level OGe = level OLt /\ level OLt = level OGt /\
+  level OGt < level OAdd /\ level OAdd = level OSub /\
+  level OSub < level OMul /\ level OMul = level ODiv /\ level ODiv = level OMod /\
+  level OMod < not_operand_prec /\ level OMod < neg_operand_prec.
+Proof. exact generated_table_order. Qed.
+Print Assumptions C02_precedence_table.
+
+Theorem C02_table_well_formed : wf_table level right_prec neg_operand_prec not_operand_prec.
+Proof. exact generated_table_wf. Qed.
+
+(* every expression tree, written down with parentheses wherever the table requires them and
+   anywhere else (YPrints: left operand at the operator's level, right operand one level tighter,
+   operand of a prefix operator tighter than every binary operator, arguments at level 0, parentheses
+   around anything), is read back as that tree, for all sufficient fuel *)
+Theorem C02_written_expression_is_read_back : forall e ts k,
+  YPrints 0 e ts k -> eventually (fun fuel => ys_parse_expr fuel 0 ts) (e, []).
+Proof. exact (prints_parse _ _ _ _ generated_table_wf). Qed.
+Print Assumptions C02_written_expression_is_read_back.
+
+Theorem C02_minimal_parentheses_suffice : forall e,
+  eventually (fun fuel => ys_parse_expr fuel 0 (print_min level right_prec neg_operand_prec not_operand_prec 0 e)) (e, []).
+Proof. exact (parse_print_min _ _ _ _ generated_table_wf). Qed.
+
+Theorem C02_full_parentheses_agree : forall e,
+  eventually (fun fuel => ys_parse_expr fuel 0 (paren (print_full e))) (e, []).
+Proof. exact (parse_print_full _ _ _ _ generated_table_wf). Qed.
+
+Theorem C02_written_form_determines_tree : forall e1 e2 ts k1 k2,
+  YPrints 0 e1 ts k1 -> YPrints 0 e2 ts k2 -> e1 = e2.
+Proof. exact (written_form_determines_tree _ _ _ _ generated_table_wf). Qed.
+
+(* the rules in the words of the property, on  a o1 b o2 c *)
+Theorem C02_tighter_operator_groups_first : forall a b c o1 o2, level o1 < level o2 ->
+  eventually (fun fuel => ys_parse_expr fuel 0 [TAtom a; TOp o1; TAtom b; TOp o2; TAtom c])
+             (EBin o1 (expr_of_atom a) (EBin o2 (expr_of_atom b) (expr_of_atom c)), []).
+Proof. exact (group_right_when_tighter _ _ _ _ generated_table_wf). Qed.
+
+Theorem C02_left_associative_otherwise : forall a b c o1 o2, level o2 <= level o1 ->
+  eventually (fun fuel => ys_parse_expr fuel 0 [TAtom a; TOp o1; TAtom b; TOp o2; TAtom c])
+             (EBin o2 (EBin o1 (expr_of_atom a) (expr_of_atom b)) (expr_of_atom c), []).
+Proof. exact (group_left_otherwise _ _ _ _ generated_table_wf). Qed.
+
+Theorem C02_prefix_operators_bind_tightest : forall a b o,
+  eventually (fun fuel => ys_parse_expr fuel 0 [TOp OSub; TAtom a; TOp o; TAtom b])
+             (EBin o (ENeg (expr_of_atom a)) (expr_of_atom b), []) /\
+  eventually (fun fuel => ys_parse_expr fuel 0 [TNot; TAtom a; TOp o; TAtom b])
+             (EBin o (ENot (expr_of_atom a)) (expr_of_atom b), []).
+Proof. intros; split; [exact (neg_binds_tightest _ _ _ _ generated_table_wf a b o)|exact (not_binds_tightest _ _ _ _ generated_table_wf a b o)]. Qed.
+
+Theorem C02_parentheses_override : forall a b c o1 o2,
+  eventually (fun fuel => ys_parse_expr fuel 0 [TLP; TAtom a; TOp o1; TAtom b; TRP; TOp o2; TAtom c])
+             (EBin o2 (EBin o1 (expr_of_atom a) (expr_of_atom b)) (expr_of_atom c), []) /\
+  eventually (fun fuel => ys_parse_expr fuel 0 [TAtom a; TOp o1; TLP; TAtom b; TOp o2; TAtom c; TRP])
+             (EBin o1 (expr_of_atom a) (EBin o2 (expr_of_atom b) (expr_of_atom c)), []).
+Proof. intros; split; [exact (parens_override_left _ _ _ _ generated_table_wf a b c o1 o2)|exact (parens_override_right _ _ _ _ generated_table_wf a b c o1 o2)]. Qed.
+Print Assumptions C02_parentheses_override.
+
+(* non-vacuity, with the fuel the wire layer uses: a + b * c == d and not false;  - a - b;  f(a, (b));
+   a dangling operator is refused *)
+Local Open Scope string_scope.
+Example C02_grouping_examples :
+  let v (x : String.string) := TAtom (AVar (str_of_string x)) in let ev (x : String.string) := EVar (str_of_string x) in
+  parse_expression [v "a"; TOp OAdd; v "b"; TOp OMul; v "c"; TOp OEq; v "d"; TOp OAnd; TNot; TAtom (AVal (VBool false))]
+    = Some (EBin OAnd (EBin OEq (EBin OAdd (ev "a") (EBin OMul (ev "b") (ev "c"))) (ev "d")) (ENot (EVal (VBool false)))) /\
+  parse_expression [TOp OSub; v "a"; TOp OSub; v "b"] = Some (EBin OSub (ENeg (ev "a")) (ev "b")) /\
+  parse_expression [TFunc (str_of_string "f"); TLP; v "a"; TComma; TLP; v "b"; TRP; TRP] = Some (ECall (str_of_string "f") [ev "a"; ev "b"]) /\
+  parse_expression [v "a"; TOp OAdd] = None.
+Proof. vm_compute. repeat split. Qed.
